@@ -4,7 +4,7 @@ import os
 RULE = ("fault-script scenarios on the real AsyncProducer/SyncProducer against the cluster simulator (go/harness/internal/cluster): "
         "corpus of fixed witnesses + seeded random scenarios: {1,2} brokers x {1,2} partitions x Retry.Max {0,1,2} x flush {immediate, Messages=2} x "
         "idempotent {off,on} x MaxMessages/MaxMessageBytes limits x fault scripts of length <= 3 (thorough: <= 30, up to 40 messages) over "
-        "{ok, retriable, retriable-after-append, fatal, drop before/after append, missing block, leader moved, duplicate} x metadata failures x "
+        "{ok, retriable, retriable-after-append, fatal, drop before/after append, missing block, leader moved, duplicate} (one verdict per request, one faulted partition, or a per-partition mix inside one response) x metadata failures x "
         "two-level retry jumps with the leader lost at the intermediate flush level x steered schedules (hold pp.newHWM / bp.response / pp.flush.level / bridge.send / retryBatch.start while a second wave is submitted); "
         "a scenario is non-trivial when at least one request is faulted or two messages share a partition; a case = all per-goroutine hook logs "
         "of one run, replayed step by step through the actor step functions (local trace validation)")
